@@ -171,6 +171,13 @@ def badRecords (m : Mon) (s : Seen) : List Nat :=
            (id == old || statusOf m.prev id != some st) then none else some old
       | none => some old)
 
+/-- every record names an operator in an end status whose observed status is the recorded one
+    (`records_always_name_ended_operators` of the model, asked of the implementation's observation) -/
+def liveRecords (s : Seen) : List Nat :=
+  s.records.filterMap (fun y =>
+    let (_, id, st) := y
+    if st.isEnd && (match statusOf s id with | some st' => st' == st | none => true) then none else some id)
+
 /-- every command is addressed to the cached region's leader and carries its epoch -/
 def badMsgs (m : Mon) (s : Seen) : List SeenMsg :=
   s.msgs.filter (fun x =>
@@ -258,6 +265,7 @@ structure EventOk (m : Mon) (ev : EventKind) (s : Seen) : Prop where
   higherReplace : badReplacements m s = []
   endOnLeave    : badLeaves m s = []
   recorded      : badRecords m s = []
+  recordsEnded  : liveRecords s = []
   addressed     : badMsgs m s = []
   staleGone     : ∀ r, ev = .heartbeat r → staleButRunning m s r = []
   ownNotStale   : ∀ r, ev = .heartbeat r → cancelledThoughOwn m s r = []
@@ -289,8 +297,9 @@ def complaints (m : Mon) (ev : EventKind) (s : Seen) : List String :=
   ((badReplacements m s).map (fun id => s!"sig=C09.replaced-by-not-higher-priority op={id}") ++
   ((badLeaves m s).map (fun id => s!"sig=C09.left-running-set-without-end-status op={id}") ++
   ((badRecords m s).map (fun id => s!"sig=C09.left-running-set-not-recorded op={id}") ++
+  ((liveRecords s).map (fun id => s!"sig=C09.record-names-operator-not-ended op={id}") ++
   ((badMsgs m s).map (fun x => s!"sig=C09.command-not-for-current-leader-and-epoch region={x.region} target={x.target} epoch={x.confVer}.{x.version}") ++
-  hbComplaints m ev s))))))
+  hbComplaints m ev s)))))))
 
 theorem hbComplaints_nil_iff (m : Mon) (ev : EventKind) (s : Seen) :
     hbComplaints m ev s = [] ↔
@@ -313,11 +322,11 @@ theorem complaints_nil_iff (m : Mon) (ev : EventKind) (s : Seen) :
   unfold complaints
   simp only [List.append_eq_nil_iff, List.map_eq_nil_iff, hbComplaints_nil_iff]
   constructor
-  · rintro ⟨h1, h2, h3, h4, h5, h6, h7, h8, h9⟩
-    exact ⟨h1, h2, h3, h4, h5, h6, h7, h8, h9⟩
+  · rintro ⟨h1, h2, h3, h4, h5, h6, h6b, h7, h8, h9⟩
+    exact ⟨h1, h2, h3, h4, h5, h6, h6b, h7, h8, h9⟩
   · intro h
     exact ⟨h.onePerRegion, h.validMoves, h.equalEpoch, h.higherReplace, h.endOnLeave, h.recorded,
-      h.addressed, h.staleGone, h.ownNotStale⟩
+      h.recordsEnded, h.addressed, h.staleGone, h.ownNotStale⟩
 
 /-! ### competing end transitions (concurrent stream) -/
 
